@@ -183,8 +183,11 @@ def draw_feed_and_target(ch, w, ref_mol_leaves, both=False):
 
 
 def apply(ctx, w, site, region, obj, ref, basis, feed, tgt, sphase, rtol=TOL):
+    coef_tol = 0.0
+    if rtol > TOL:      # cancelling arithmetic: coefficients are only required to agree within rtol
+        coef_tol = rtol * max([1.0] + [float(np.abs(lf.nu).max()) for lf in ref.leaves()])
     return rx.apply_and_judge(ctx, site, f'{region},tgt={tgt}', obj, ref, basis, w.pid, feed, tgt, w.phases, w.pid,
-                              stream_phase=sphase, rtol=rtol)
+                              stream_phase=sphase, rtol=rtol, coef_tol=coef_tol)
 
 
 def _zero_pattern(a):
